@@ -42,7 +42,7 @@ def shift(t, k):
 
 @st.composite
 def _cases(draw, max_size=10):
-    s = draw(gen.score_sets(max_size=max_size, modes=MODES, mag=1e6))
+    s = draw(gen.score_sets(max_size=max_size, modes=MODES, mag=1e6, containers=("f64", "f64", "f32", "list", "neg-int", "pos-int", "neg-f32")))
     pops = [len(s["pos"]) + s["ep"], len(s["neg"]) + s["en"],
             len(s["pos"]) + len(s["neg"]) + s["ep"] + s["en"]]
     k = draw(st.integers(1, 5))
@@ -53,8 +53,7 @@ def _cases(draw, max_size=10):
 def _obj(s, sc, ec):
     from score_analysis import Scores
 
-    dt = int if s["mode"] == "int" else float
-    return Scores(np.asarray(s["pos"], dtype=dt), np.asarray(s["neg"], dtype=dt),
+    return Scores(gen.build_scores(s, "pos"), gen.build_scores(s, "neg"),
                   nb_easy_pos=s["ep"], nb_easy_neg=s["en"], score_class=sc, equal_class=ec)
 
 
@@ -63,7 +62,7 @@ def check(case):
     pos, neg, ep, en = s["pos"], s["neg"], s["ep"], s["en"]
     rs = np.asarray(case["targets"], dtype=float)
     nontrivial = False
-    labels = [f"mode:{s['mode']}"]
+    labels = [f"mode:{s['mode']}", f"container:{s.get('container')}"]
     for m in METRICS:
         rel = [float(x) for x in relevant_scores(m, pos, neg)]
         if not rel:
